@@ -488,6 +488,20 @@ def _run_xc(case, obs, light=False):
     cx.M_arg = tuple(tuple(r) for r in cx.M) if as_tuple else [list(r) for r in cx.M]
     cx.cols_arg = (tuple(cols) if as_tuple else list(cols)) if cols is not None else None
     cx.sec_arg = (tuple(sec) if as_tuple else list(sec)) if sec is not None else None
+    if sec:
+        # the optional columns as any Sequence / collection of names: a range of positions (N-Queens diagonals are written
+        # that way) or a frozenset - they are a set of column names, whatever they arrive in
+        ints = sorted(sec) if all(isinstance(x, int) and not isinstance(x, bool) for x in sec) else None
+        pick = (len(cx.M) + 3 * len(sec) + len(cx.M[0])) % 5
+        if pick == 0 and ints and ints == list(range(ints[0], ints[-1] + 1)) and len(set(sec)) == len(sec):
+            cx.sec_arg = range(ints[0], ints[-1] + 1)
+            obs.event("xc.secondary-as-range")
+        elif pick == 1:
+            try:
+                cx.sec_arg = frozenset(sec)
+                obs.event("xc.secondary-as-frozenset")
+            except TypeError:
+                pass
     cx.M_copy, cx.cols_copy, cx.sec_copy = copy.deepcopy(cx.M_arg), copy.deepcopy(cx.cols_arg), copy.deepcopy(cx.sec_arg)
     cx.l2 = []
     try:
